@@ -83,6 +83,15 @@ pub fn gen_cone(rng: &mut Rng, allow_dd: bool) -> Case {
       let depth2 = (k + rng.below(4) as u8).min(29 - dd);
       return Case::new("cone").u("depth", depth2 as u64).u("dd", dd as u64).f("lon", c.0).f("lat", c.1).f("r", (PI - dsel + delta).min(PI)).u("s", rng.next() >> 1);
     }
+    // nearly-all-sky cones centred exactly on a cell centre of level <= 8: the excluded region around the antipode is smaller than the
+    // cell centred on that antipode, whose centre is at distance pi (to rounding) from the cone centre
+    if rng.below(16) == 0 {
+      let k = rng.below(9) as u8; let h = rng.below(n_hash(k)); let c = nested::get_or_create(k).center(h);
+      let cellk = 1.0 / nside(k) as f64;
+      let depth2 = (k + rng.below(3) as u8).min(29 - dd);
+      let r2 = if rng.below(4) == 0 { PI * (1.0 - rng.log_uniform(1e-12, 1e-3)) } else { PI - cellk * rng.log_uniform(1e-6, 0.5) };
+      return Case::new("cone").u("depth", depth2 as u64).u("dd", dd.min(29 - depth2) as u64).f("lon", c.0).f("lat", c.1).f("r", r2.max(1e-10)).u("s", rng.next() >> 1);
+    }
     match rng.below(12) {
       0 => { let d = rng.below(30) as u8; let cs = sample_cells(rng, d, 4); let h = *rng.pick(&cs); let c = nested::get_or_create(d).center(h); lon = c.0; lat = c.1; }
       1 => { let d = rng.below(30) as u8; let cs = sample_cells(rng, d, 4); let h = *rng.pick(&cs); let v = nested::get_or_create(d).vertices(h)[rng.below(4) as usize]; lon = v.0; lat = v.1; }
